@@ -340,6 +340,97 @@ class Isolation(Part):
         return None
 
 
+class RenderArgs(Part):
+    """What a render call is given besides variables - the translation
+    function, the target language, an encoding - holds for that call only:
+    every call on a shared instance equals the same call on a fresh one."""
+    name = "renderargs"
+    examples = {"quick": 150, "thorough": 4000}
+
+    SRC = ('<div><p i18n:translate="">Hello <b i18n:name="n">${x}</b>!</p>'
+           '<i title="Title" i18n:attributes="title">${b}</i>${m}'
+           '<u tal:content="m">c</u></div>')
+
+    def strategy(self, tier):
+        call = st.fixed_dictionaries({
+            "translate": st.sampled_from([None, None, "A", "B", "none"]),
+            "target_language": st.sampled_from([None, None, "de", "fr"]),
+            "encoding": st.sampled_from([None, None, None, "utf-8",
+                                         "latin-1"]),
+            "x": st.sampled_from(["1", "é", "<x>"]),
+        })
+        return st.fixed_dictionaries({
+            "config_encoding": st.sampled_from([None, None, "utf-8",
+                                                "latin-1"]),
+            "config_translate": st.sampled_from([None, None, "C"]),
+            "calls": st.lists(call, min_size=2, max_size=5),
+        })
+
+    def nontrivial(self, case):
+        return len({(c["translate"], c["target_language"], c["encoding"])
+                    for c in case["calls"]}) >= 2
+
+    def labels(self, case):
+        if case["config_encoding"] or any(c["encoding"]
+                                          for c in case["calls"]):
+            yield "encoding"
+        if len({c["translate"] for c in case["calls"]}) >= 2:
+            yield "translate_changes"
+
+    @staticmethod
+    def tr(tag):
+        def translate(msgid, domain=None, mapping=None, context=None,
+                      target_language=None, default=None):
+            text = default if isinstance(default, str) else str(
+                getattr(msgid, "msgid", msgid))
+            for k, v in (mapping or {}).items():
+                text = text.replace("${%s}" % k, str(v))
+            return "%s[%s|%s]" % (tag, target_language, text)
+        return translate
+
+    def make(self, case):
+        from chameleon import PageTemplate
+        cfg = {}
+        if case["config_encoding"]:
+            cfg["encoding"] = case["config_encoding"]
+        if case["config_translate"]:
+            cfg["translate"] = self.tr(case["config_translate"])
+        return PageTemplate(self.SRC, **cfg)
+
+    def call(self, t, c):
+        kw = {"x": c["x"], "b": "café".encode(
+            c["encoding"] or "utf-8"), "m": values.Msg("mid")}
+        if c["translate"] == "none":
+            kw["translate"] = None
+        elif c["translate"]:
+            kw["translate"] = self.tr(c["translate"])
+        if c["target_language"]:
+            kw["target_language"] = c["target_language"]
+        if c["encoding"]:
+            kw["encoding"] = c["encoding"]
+        o = run(t.render, **kw)
+        return ("out", o.value) if o.ok else ("exc", o.exc_name)
+
+    def oracle(self, case):
+        o = run(self.make, case)
+        if not o.ok:
+            raise HarnessError("scaffold does not compile: %s" % o.brief())
+        shared = o.value
+        for k, c in enumerate(case["calls"]):
+            got = self.call(shared, c)
+            want = self.call(self.make(case), c)
+            if got != want:
+                return Mismatch("renderargs:call differs from a fresh "
+                                "instance", {"config": {
+                                    k2: case[k2] for k2 in (
+                                        "config_encoding",
+                                        "config_translate")},
+                                    "calls": case["calls"], "call": k,
+                                    "shared": repr(got),
+                                    "fresh": repr(want)})
+        return None
+
+
 # ---------------------------------------------------------------------------
 
 CHILD = r"""
@@ -507,6 +598,38 @@ FILE_BODY = ('<html><b metal:define-macro="m">M${x}</b>'
 USER_BODY = '<div metal:use-macro="load: page.pt">u</div>'
 
 
+# templates compiled side by side (each thread renders another one): one
+# with translation blocks / named parts / a slot filler, one plain
+I18N_BODY = ('<div><p i18n:translate="">Hello <b i18n:name="who">W${x}</b>, '
+             'you have <i i18n:name="n">${x + 1}</i> items.</p>'
+             '<x metal:use-macro="load: page.pt">'
+             '<y metal:fill-slot="none">f</y></x>'
+             '<span i18n:translate="">bye <u i18n:name="z">z</u></span>'
+             "</div>")
+PLAIN_BODY = "<div>" + "".join(
+    "<p class='c%d'>text %d ${x}</p>\n" % (k, k) for k in range(12)) + \
+    "</div>"
+SIDE_BODIES = {"i18n.pt": I18N_BODY, "plain.pt": PLAIN_BODY}
+
+
+_SIDE = {}
+
+
+def expected_side(name, x):
+    if (name, x) not in _SIDE:
+        _SIDE[name, x] = _expected_side(name, x)
+    return _SIDE[name, x]
+
+
+def _expected_side(name, x):
+    from chameleon import PageTemplateFile
+    d = scratch_tree()
+    try:
+        return PageTemplateFile(os.path.join(d, name)).render(x=x)
+    finally:
+        shutil.rmtree(d, ignore_errors=True)
+
+
 def expected_file(x):
     from chameleon import PageTemplate
     return PageTemplate(FILE_BODY).render(x=x)
@@ -518,6 +641,12 @@ def scratch_tree():
         f.write(FILE_BODY)
     with open(os.path.join(d, "user.pt"), "w") as f:
         f.write(USER_BODY)
+    for name, body in SIDE_BODIES.items():
+        with open(os.path.join(d, name), "w") as f:
+            f.write(body)
+        for k in range(4):
+            with open(os.path.join(d, "%d-%s" % (k, name)), "w") as f:
+                f.write(body)
     return d
 
 
@@ -551,11 +680,31 @@ def scenario(kind, d):
     if kind == "string_template":
         t = PageTemplate(FILE_BODY)
         return lambda i: (lambda: t.render(x=i)), expected_file
+    if kind == "side_by_side":
+        # a shared loader; every thread renders ANOTHER, not yet compiled
+        # template (the compilations run side by side)
+        loader = PageTemplateLoader(d)
+        names = ["i18n.pt", "plain.pt", "i18n.pt"]
+        exp = {n: expected_side(n, 7) for n in set(names)}
+        return (lambda i: (lambda: loader.load(
+            names[i % 3]).render(x=7)), lambda i: exp[names[i % 3]])
+    if kind == "side_by_side_many":
+        loader = PageTemplateLoader(d)
+        names = ["%d-%s" % (k, n) for k in range(4)
+                 for n in ("i18n.pt", "plain.pt")]
+        exp = {n: expected_side(n.split("-", 1)[1], 7) for n in names}
+
+        def work(i):
+            order = names[i % len(names):] + names[:i % len(names)]
+            return lambda: [loader.load(n).render(x=7) for n in order]
+        return work, lambda i: [exp[n] for n in (
+            names[i % len(names):] + names[:i % len(names)])]
     raise ValueError(kind)
 
 
 SCENARIOS = ["file_first_render", "file_auto_reload", "macro_access",
-             "macro_names", "loader", "loader_user", "string_template"]
+             "macro_names", "loader", "loader_user", "string_template",
+             "side_by_side", "side_by_side_many"]
 
 
 def _free_job(args):
@@ -579,6 +728,9 @@ def _free_job(args):
                     for _ in range(3):
                         out.append(fn())
                     results[i] = out
+                    if kind == "side_by_side_many":
+                        results[i] = out[:1] * 3 if out[0] == out[1] == \
+                            out[2] else out
                 except BaseException as e:  # noqa: BLE001
                     errors[i] = "%s: %s" % (type(e).__name__, str(e)[:200])
             ts = [threading.Thread(target=work, args=(i,))
@@ -636,6 +788,14 @@ class FreeThreads(Stage):
         }
 
 
+# code generation: every line of these methods (wherever the class that
+# holds them is defined) is a yield point in the side-by-side scenario
+CODEGEN_YIELDS = (("compiler.py", "visit_TranslationContext"),
+                  ("compiler.py", "visit_Translate"),
+                  ("compiler.py", "visit_UseExternalMacro"),
+                  ("compiler.py", "visit_FillSlot"))
+
+
 def yield_functions():
     from chameleon.loader import TemplateLoader
     from chameleon.template import BaseTemplate, BaseTemplateFile
@@ -657,7 +817,8 @@ def run_schedule(kind, schedule, nthreads=2):
     d = scratch_tree()
     try:
         mk, exp = scenario(kind, d)
-        s = Scheduler(yield_functions())
+        names = CODEGEN_YIELDS if kind == "side_by_side" else ()
+        s = Scheduler(yield_functions(), names=names)
         try:
             workers, trace = s.run([mk(i) for i in range(nthreads)],
                                    schedule)
@@ -704,7 +865,7 @@ class Schedules(Stage):
         import random
         rnd = random.Random(seed)
         kinds = ["file_first_render", "file_auto_reload", "macro_access",
-                 "macro_names", "loader", "loader_user"]
+                 "macro_names", "loader", "loader_user", "side_by_side"]
         jobs = []
         info = {}
         for kind in kinds:
@@ -725,6 +886,11 @@ class Schedules(Stage):
             if tier == "quick":
                 rnd.shuffle(double)
                 double = double[:30]
+                if kind == "side_by_side":
+                    # (many yield points: every other one, alternating
+                    # with the seed)
+                    single = single[seed % 2::2]
+                    double = double[:10]
             drawn = [[rnd.randint(0, 2) for _ in range(3 * n0)]
                      for _ in range(10 if tier == "quick" else 300)]
             jobs += [(kind, s, 2) for s in single + double]
@@ -769,7 +935,7 @@ CHECK = Check(
           "inside cook / cook_check / read / load / macros / include, sampled "
           "(quick) or all (thorough) double-preemption schedules and drawn "
           "3-thread schedules; every schedule is a distinct non-trivial case"),
-    parts=[Determinism(), EngineObjects(), Isolation()],
+    parts=[Determinism(), EngineObjects(), Isolation(), RenderArgs()],
     stages=[HashSeed(), FreeThreads(), Schedules()],
     assumptions=[
         "preemption inside C-level calls or between the bytecodes of one "
